@@ -349,7 +349,7 @@ class PipeInput : public Engine {
             n = r.range(257, 600); // more than 256 dictionary entries: 2-byte indices
             cls = r.chance(1, 2) ? ARR_FULL64 : ARR_SORTED;
         }
-        if (entry.rfind("elias", 0) == 0) cls = r.chance(2, 3) ? ARR_SMALL : ARR_FULL64;
+        if (entry.rfind("elias", 0) == 0) cls = r.chance(1, 2) ? ARR_SMALL : (r.chance(1, 2) ? ARR_ZERORUNS : ARR_FULL64);
         if (entry == "rle.runcount" && r.chance(2, 3)) cls = ARR_LOWCARD;
         if (entry == "bp128.getcount") {
             prod.sets("codec", r.chance(1, 2) ? "bp128.32" : "bp128.64");
@@ -453,7 +453,7 @@ class PipeInput : public Engine {
                     f.set("wrapj", r.range(1, 8));
                     f.set("k", r.chance(1, 2) ? r.below(4) : r.below(vals.size() * 2 + 2));
                 } else
-                    f.set("v", r.chance(1, 2) ? r.pick(huge) : vals.size() + r.range(1, 3));
+                    f.set("v", r.chance(1, 2) ? r.pick(huge) : (r.chance(1, 3) ? r.below(3) : vals.size() + r.range(1, 3)));
                 f.set("keeplen", r.below(2));
                 if (entry == "dict.decode_into") f.set("cap", r.chance(1, 2) ? vals.size() : r.below(vals.size() + 2));
                 p.ops.push_back(f);
@@ -466,8 +466,11 @@ class PipeInput : public Engine {
             g.kind = "garbage";
             size_t gl = r.chance(1, 2) ? r.below(12) : (r.chance(1, 8) ? r.below(4097) : r.below(200));
             auto &b = g.mkarr("bytes");
+            bool tiny = r.chance(1, 3); // strings of very small integers: empty tables, zero counts, zero widths
             for (size_t j = 0; j < gl; j++) {
-                if (j < 6 && r.chance(1, 2))
+                if (tiny)
+                    b.push_back(r.below(r.chance(1, 2) ? 2 : 4));
+                else if (j < 6 && r.chance(1, 2))
                     b.push_back(r.pick(boundary));
                 else
                     b.push_back(r.below(256));
@@ -652,7 +655,9 @@ class PipeCapacity : public Engine {
         size_t n = gen_length(r, tier);
         int cls = (int)r.below(ARR_NCLASSES);
         if (d == "group.decode") n = r.range(1, 64);
-        if (d.rfind("elias", 0) == 0) cls = r.chance(2, 3) ? ARR_SMALL : ARR_FULL64;
+        if (d.rfind("elias", 0) == 0) cls = r.chance(1, 2) ? ARR_SMALL : (r.chance(1, 2) ? ARR_ZERORUNS : ARR_FULL64);
+        if (d.rfind("bp128", 0) == 0 && r.chance(1, 3)) cls = ARR_ZERORUNS;
+        if (d.rfind("rle", 0) == 0 && r.chance(1, 3)) cls = ARR_ZERORUNS;
         if (d.rfind("bp128d", 0) == 0) cls = r.chance(1, 2) ? ARR_SORTED : ARR_STRICT_INC16;
         if (d == "adaptive.BITMAP") cls = ARR_STRICT_INC16;
         if ((d == "adaptive.DICT" || d == "dict.decode_into" || d.rfind("rle", 0) == 0) && r.chance(1, 2))
